@@ -368,3 +368,11 @@ VK(parse_state) {
 }
 
 VK(set_limit) { UNUSED; ada::set_max_input_length(uint32_t(p0)); return ada::get_max_input_length(); }
+
+// ---------------------------------------------------------------- can_parse (C08)
+// returns 0 = false, 1 = true, 2 = nullopt (defer to the full parser)
+VK(can_parse_fast) {
+  UNUSED;
+  auto r = ada::try_can_parse_absolute_fast(SV);
+  return r.has_value() ? uint64_t(*r) : 2;
+}
